@@ -54,7 +54,9 @@ const ASI = [
   'function* f(a) { const g = function* () { yield a + 1 }; return (yield* g()) + (yield a) }',
   'function f(a, b) { return class extends (a + b) { static async *[a + b]() { yield* [await a + b] } } }',
   // D49 witness (kept last so that the indices above stay put): a legacy non-octal decimal literal (sloppy mode only) as member object
-  'function f(a) {\n  const r = 089 .toString() + a\n  return r\n}'
+  'function f(a) {\n  const r = 089 .toString() + a\n  return r\n}',
+  // D50 witness (sloppy mode only): `let` used as an identifier, a parenthesised member of it as += target at the start of a statement
+  'function f(a, k) {\n  (let[k]) += a\n  return k\n}'
 ]
 
 function usesAwaitAsIdentifier (code) {
